@@ -84,4 +84,26 @@ out.append("contract nop::Encoding<vt::TW>::SkipEntry<nop::PedanticBufferReader>
 out.append("job tb_fn_skip_entry\n  props C08 C07\n  pre vt_p = nondet_uchar(); vt_dl = nondet_ulong(); vt_val = nondet_ulong();\n  enforce nop::Encoding<vt::TW>::SkipEntry<nop::PedanticBufferReader>\n"
            "  replace nop::EncodingIO<unsigned long>::Read<nop::PedanticBufferReader>\n  replace nop::PedanticBufferReader::Skip(unsigned long)\n  timeout 900\n"
            "  note modular and unbounded: every declared entry size (all classes, up to 2^64-1), every buffer length up to 2^40\n")
+# ReadEntry of an active uint8_t entry (TW::y): duplicate detection, declared size read through the contract of (1),
+# value read through BoundedReader<PedanticBufferReader> (inlined real code) and the padding skipped: for EVERY
+# declared size and buffer length.  Ghosts: vt_p2 / vt_dl2 = prefix byte and encoding length of the value inside the frame.
+out.append("c unsigned char vt_p2; unsigned long vt_dl2;")
+out.append("c #define ENT_EMPTY(e) ((e)->__b0.state_.empty)")
+out.append("c #define ENT_VAL(e) ((e)->__b0.state_.storage.value)")
+RK = "nop::Encoding<vt::TW>::ReadEntry<unsigned char, 1UL, nop::PedanticBufferReader>"
+VALPOS = "(reader->index_ + vt_dl)"
+out.append("contract " + RK + "\n"
+  "  requires PB_PRE(reader) && FRESH(entry)\n  " + GH + "\n  " + VAL + "\n"
+  "  requires (reader->index_ < reader->size_ && vt_dl != 0 && reader->size_ - reader->index_ > vt_dl) ==> (vt_p2 == reader->buffer_[reader->index_ + vt_dl] && vt_dl2 == VT_DECLEN_UINT(vt_p2, 1))\n"
+  "  assigns reader->index_, __CPROVER_object_whole(entry)\n"
+  "  ensures reader->index_ <= reader->size_\n"
+  "  ensures !OLD(ENT_EMPTY(entry)) ==> (ERR(RET) == E_DuplicateTableEntry && reader->index_ == OLD(reader->index_))\n"
+  "  ensures ERR(RET) == 0 ==> (OLD(ENT_EMPTY(entry)) && PB_AVAIL(reader) >= 1 && vt_dl != 0 && PB_AVAIL(reader) > vt_dl && vt_dl2 != 0 && vt_dl2 <= vt_val && vt_val <= PB_AVAIL(reader) - vt_dl)\n"
+  "  ensures (OLD(ENT_EMPTY(entry)) && PB_AVAIL(reader) >= 1 && vt_dl != 0 && PB_AVAIL(reader) > vt_dl && vt_dl2 != 0 && vt_dl2 <= vt_val && vt_val <= PB_AVAIL(reader) - vt_dl) ==> ERR(RET) == 0\n"
+  "  ensures ERR(RET) == 0 ==> (reader->index_ == OLD(reader->index_) + vt_dl + vt_val && !ENT_EMPTY(entry))\n"
+  "  ensures (ERR(RET) == 0 && vt_dl2 == 1) ==> ENT_VAL(entry) == vt_p2\n"
+  "  ensures (ERR(RET) == 0 && vt_dl2 == 2) ==> ENT_VAL(entry) == reader->buffer_[OLD(reader->index_) + vt_dl + 1]\n")
+out.append("job tb_fn_read_entry_u8\n  props C08 C07\n  pre vt_p = nondet_uchar(); vt_dl = nondet_ulong(); vt_val = nondet_ulong(); vt_p2 = nondet_uchar(); vt_dl2 = nondet_ulong();\n  enforce " + RK + "\n"
+           "  replace nop::EncodingIO<unsigned long>::Read<nop::PedanticBufferReader>\n  timeout 1800\n"
+           "  note modular and unbounded: duplicate detection, declared size smaller / equal / larger than the value, padding skipped exactly — every size, every buffer length up to 2^40\n")
 print("\n".join(out))
